@@ -124,7 +124,11 @@ class M(Model):
                         f"agent {k}: {self._locs(s)[k].tolist()} -> {self._locs(s2)[k].tolist()}"))
         others = [j for j in range(self.A) if j != k]
         want = self._cleaned_by(s, a, others) - self.pen
-        if abs(float(ts2.reward) - want) > 1e-5:
+        own = tuple(int(x) for x in self._locs(s)[k])
+        # (offender standing on a dirty tile - only possible on a dirty start tile: whether staying "visits"
+        # the tile is not documented, so its tile / the reward are not judged in that case)
+        own_dirty = self._inside(*own) and int(np.asarray(s.grid)[own]) == DIRTY
+        if not own_dirty and abs(float(ts2.reward) - want) > 1e-5:
             out.append(("invalid-move reward is not (tiles cleaned by the other agents - penalty)",
                         f"agent {k}: reward={float(ts2.reward)} expected={want}"))
         # nothing is cleaned on behalf of the offender: the only tiles that may change are the ones
@@ -136,6 +140,8 @@ class M(Model):
                 t = self._target(s, j, np.asarray(a).reshape(-1)[j])
                 if self._legal1(g, *t):
                     arrivals.add(t)
+            if own_dirty:
+                arrivals.add(own)
             stray = [tuple(x) for x in np.argwhere(g != g2).tolist() if tuple(x) not in arrivals]
             if stray:
                 out.append(("grid changed on an invalid move beyond the other agents' arrivals",
@@ -158,7 +164,10 @@ class M(Model):
                 out.append(("agent outside the grid", f"agent {k} at ({r},{c}) grid {self.R}x{self.C}"))
             elif int(grid[r, c]) == WALL:
                 out.append(("agent inside a wall", f"agent {k} at ({r},{c})"))
-            elif int(grid[r, c]) != CLEAN:
+            elif prev is not None and int(grid[r, c]) != CLEAN:
+                # only after a step ("every time an agent visits a dirty tile, it is cleaned"; every agent of a
+                # non-terminal state has just arrived).  The md page says the *whole* floor is dirty at reset,
+                # so nothing is demanded of the start tile at reset.
                 out.append(("agent stands on a tile that is not clean", f"agent {k} at ({r},{c}) tile={int(grid[r, c])}"))
         if prev is not None:
             pg = np.asarray(prev.grid)
@@ -168,17 +177,8 @@ class M(Model):
                 back = (pg == CLEAN) & (grid != CLEAN)
                 if back.any():
                     out.append(("clean tile reverted", f"cells {np.argwhere(back)[:3].tolist()}"))
-                changed = np.argwhere((pg == DIRTY) & (grid == CLEAN))
-                here = {(int(r), int(c)) for r, c in locs}
-                stray = [tuple(x) for x in changed.tolist() if tuple(x) not in here]
-                if stray:
-                    out.append(("tile cleaned where no agent stands", f"cells {stray[:3]}"))
-            if int(s.step_count) != int(prev.step_count) + 1:
-                out.append(("step_count not incremented", f"{int(prev.step_count)} -> {int(s.step_count)}"))
-            # one step = at most one cell per agent
-            for k, (p, q) in enumerate(zip(self._locs(prev), locs)):
-                if abs(int(p[0]) - int(q[0])) + abs(int(p[1]) - int(q[1])) > 1:
-                    out.append(("agent moved more than one cell", f"agent {k}: {p.tolist()} -> {q.tolist()}"))
+            # not asserted here (C07 = each state is a possible configuration + the listed conservation laws):
+            # step_count, "one cell per step", "tiles are only cleaned under an agent" are transition rules (C09)
         return out
 
     # ------------------------------------------------------------------ C08
@@ -206,12 +206,17 @@ class M(Model):
             ok.append(good)
             if good:
                 locs[k] = t
+        # an agent that stays (invalid move) on a dirty tile: whether "visiting" covers standing still is not
+        # documented (only possible if the start tile is dirty at reset) -> grid / reward not predicted then
+        defined = all(good or int(grid[r, c]) != DIRTY for good, (r, c) in zip(ok, locs))
         before = int((grid == DIRTY).sum())
         for r, c in locs:
             grid[r, c] = CLEAN
         cleaned = before - int((grid == DIRTY).sum())
         step = int(s.step_count) + 1
         last = (not all(ok)) or not (grid == DIRTY).any() or step >= self.T
+        if not defined:
+            return {"state": {"agents_locations": locs, "step_count": step}, "last": last, "discount": 0.0 if last else 1.0}
         return {"state": {"agents_locations": locs, "grid": grid, "step_count": step},
                 "reward": cleaned - self.pen, "last": last, "discount": 0.0 if last else 1.0}
 
@@ -228,8 +233,8 @@ class M(Model):
             out.append(("agents do not start in the top-left corner", str(locs.tolist())))
         if int(grid[0, 0]) == WALL:
             out.append(("start cell is a wall", ""))
-        elif int(grid[0, 0]) != CLEAN:
-            out.append(("start cell is not clean", f"tile={int(grid[0, 0])}"))
+        # (whether the start tile is already clean is not advertised: the md page says "the whole floor is
+        # dirty" at the beginning of an episode, the generator cleans it - both are accepted)
         rest = grid.copy()
         rest[0, 0] = DIRTY
         if (rest == CLEAN).any():
@@ -239,8 +244,7 @@ class M(Model):
         if (free & ~seen).any():
             out.append(("maze not fully connected from the agents' start",
                         f"{int((free & ~seen).sum())} floor tiles unreachable, e.g. {np.argwhere(free & ~seen)[0].tolist()}"))
-        if int(s0.step_count) != 0:
-            out.append(("initial step_count != 0", str(int(s0.step_count))))
+        # (step_count is not an invariant of the generated problem instance: not asserted under C10)
         return out
 
     # ------------------------------------------------------------------ C12
